@@ -32,6 +32,13 @@ func c04ActionCode(rule string, k int, kind string) string {
 	case "nocompile":
 		return "var = ;"
 	}
+	if kind == "scribble" {
+		// like ok, and it writes to its own variables afterwards: every execution
+		// has its own `event` (and bindings), so nobody else may see this
+		return fmt.Sprintf("Env.AddFact('', {exec: '%s/%d'}); var rep = {r: ruleId, a: %d, loc: location, ev: event, "+
+			"x: (typeof x === 'undefined') ? '<unbound>' : x, n: (typeof n === 'undefined') ? '<unbound>' : n}; "+
+			"event.scribble = '%s/%d'; x = 'scribbled'; n = 'scribbled'; rep", rule, k, k, rule, k)
+	}
 	return fmt.Sprintf("Env.AddFact('', {exec: '%s/%d'}); ({r: ruleId, a: %d, loc: location, ev: event, "+
 		"x: (typeof x === 'undefined') ? '<unbound>' : x, n: (typeof n === 'undefined') ? '<unbound>' : n})", rule, k, k)
 }
@@ -74,6 +81,9 @@ func genC04(r *h.Rng, tier string, idx int) *h.Plan {
 		var akinds []interface{}
 		for k := 0; k < na; k++ {
 			kind := "ok"
+			if r.P(1, 5) {
+				kind = "scribble"
+			}
 			if !serial {
 				switch r.Weighted([]int{8, 2, 1}) {
 				case 1:
@@ -338,7 +348,7 @@ func execC04(t *testing.T, plan *h.Plan, trace bool) *h.Result {
 				for _, cb := range c04Cond(cond, facts, map[string]interface{}(wb)) {
 					for k, kind := range ri.kinds {
 						bshow := h.CanonSet(h.StripEnv(cb))
-						if kind == "ok" {
+						if kind == "ok" || kind == "scribble" {
 							x, hasX := cb["?x"]
 							if !hasX {
 								x = "<unbound>"
@@ -347,7 +357,12 @@ func execC04(t *testing.T, plan *h.Plan, trace bool) *h.Result {
 							if !hasN {
 								n = "<unbound>"
 							}
-							val := h.CanonSet(map[string]interface{}{"r": ri.id, "a": float64(k), "loc": "L", "ev": evm, "x": x, "n": n})
+							sees := evm
+							if kind == "scribble" {
+								sees = h.CloneMap(evm)
+								sees["scribble"] = fmt.Sprintf("%s/%d", ri.id, k)
+							}
+							val := h.CanonSet(map[string]interface{}{"r": ri.id, "a": float64(k), "loc": "L", "ev": sees, "x": x, "n": n})
 							wantLeaves = append(wantLeaves, fmt.Sprintf("%s|%s|%d|complete|%s", ri.id, bshow, k, val))
 							wantValues = append(wantValues, val)
 							totalExec++
